@@ -97,6 +97,9 @@ pub fn family(tier: Tier) -> Vec<R> {
     let mut items = inner.clone();
     items.push(a.clone());
     items.push(c.clone());
+    // two atoms that report the same name ("7") but hash differently: an interval and a word
+    items.push(R::interval(7));
+    items.push(R::word("7"));
     // level 2: unordered constructors over inner items
     let l2_tags: Vec<Tag> = if tier == Tier::Thorough { set_tags.clone() } else { vec![Tag::SetExt, Tag::IntInt, Tag::Conj, Tag::ParConj] };
     for &t in &l2_tags {
